@@ -17,6 +17,19 @@ if ! cargo build --release --offline --manifest-path "$HERE/harness/Cargo.toml" 
 fi
 rm -f "$LOG"
 VC="$HERE/harness/target/release/vcheck"
+# C12 only: a second build of harness + crate with overflow checks and debug assertions on
+build_checked() {
+  local L; L="$(mktemp /tmp/vharness-build.XXXXXX)"
+  if ! cargo build --profile checked --offline --manifest-path "$HERE/harness/Cargo.toml" >"$L" 2>&1; then
+    echo "INCONCLUSIVE property=$ID the checked-profile harness does not build; last lines:"; tail -n 25 "$L"; rm -f "$L"; exit 2
+  fi
+  rm -f "$L"
+}
+VCC="$HERE/harness/target/checked/vcheck"
+# replay files of the checked-profile pass are named C12-checked-*: they are replayed with that build
+for a in "$@"; do
+  case "$a" in *C12-checked-*) build_checked; VC="$VCC" ;; esac
+done
 "$VC" "$ID" --tier "$TIER" --seed "$SEED" --verif-dir "$HERE" "$@"
 rc=$?
 if [ $rc -ne 0 ] && [ $rc -ne 1 ] && [ $rc -ne 2 ]; then
@@ -26,6 +39,35 @@ fi
 [ $rc -eq 0 ] || exit $rc
 # a replay request ends here
 for a in "$@"; do [ "$a" = "--replay" ] && exit 0; done
+
+# ---- C12: the same check once more (quick budget) on the checked profile: a panic that only an
+# overflow check or a debug assertion raises is a panic of the crate all the same
+if [ "$ID" = "C12" ]; then
+  build_checked
+  SCR="$(mktemp -d /tmp/vchecked.XXXXXX)"
+  cp "$HERE/known_findings.json" "$SCR/" 2>/dev/null
+  OUT="$("$VCC" C12 --tier quick --seed "$SEED" --verif-dir "$SCR" 2>"$SCR/err")"; crc=$?
+  if [ $crc -eq 1 ]; then
+    mkdir -p "$HERE/replays"
+    grep -E "^\[C12\]" "$SCR/err" | head -5 >&2
+    for f in "$SCR"/replays/*.json; do
+      [ -f "$f" ] || continue
+      dst="$HERE/replays/C12-checked-$(basename "$f" | sed 's/^C12-//')"; cp "$f" "$dst"
+      echo "VIOLATION property=C12 replay=$dst"
+    done
+    rm -rf "$SCR"; exit 1
+  elif [ $crc -ne 0 ]; then
+    echo "$OUT" | grep -E "^INCONCLUSIVE" || echo "INCONCLUSIVE property=C12 checked-profile pass ended with status $crc"
+    rm -rf "$SCR"; exit 2
+  fi
+  CL="$(echo "$OUT" | grep -E "^OK property=C12" | tail -1)"
+  echo "CHECKED-PROFILE $CL"
+  cc=$(echo "$CL" | sed -n 's/.* cases=\([0-9]*\).*/\1/p'); ce=$(echo "$CL" | sed -n 's/.* evaluations=\([0-9]*\).*/\1/p')
+  if [ -f "$HERE/evidence/C12.json" ]; then
+    jq --argjson c "${cc:-0}" --argjson e "${ce:-0}" '.coverage.checked_profile_pass = {profile: "release + overflow-checks + debug-assertions (harness and crate)", budget: "quick", cases: $c, evaluations: $e, violations: 0}' "$HERE/evidence/C12.json" > "$HERE/evidence/C12.json.tmp" && mv "$HERE/evidence/C12.json.tmp" "$HERE/evidence/C12.json"
+  fi
+  rm -rf "$SCR"
+fi
 
 # ---- byte-level tier: committed corpus replay (quick + thorough) and libFuzzer campaigns (thorough)
 case "$ID" in
